@@ -431,11 +431,24 @@ def havoc_locs(it, locs):
             else:
                 h.set(k, z3.Store(h.get(k), loc.cid, st.fresh('hv_c_' + loc.name)))
         elif isinstance(loc, LocGhost):
-            st.ghost[loc.name] = st.fresh('ghost_' + loc.name)
+            if loc.name == 'printed':
+                h.ghost['printed'] = z3.Const(st.fresh_name('hv_printed'), SeqVal)
+            else:
+                h.ghost[loc.name] = st.fresh('ghost_' + loc.name)
 
 
 def frame_obligations(it, before, after, locs, alloc_before, clause):
     st = it.st
+    # ghost effects (e.g. `printed`) not listed in the frame must not happen
+    allowed = set(l.name for l in locs if isinstance(l, LocGhost))
+    for name, val in after.ghost.items():
+        if name in allowed:
+            continue
+        prev = before.ghost.get(name)
+        if prev is None:
+            prev = z3.Const('G0_' + name, val.sort())
+        if not prev.eq(val):
+            st.oblige(it.fn.qual, '%s[ghost:%s]' % (clause, name), 'frame', prev == val)
     keys = list(dict.fromkeys(list(before.arrs) + list(after.arrs)))
     for key in keys:
         a0, a1 = before.get(key), after.get(key)
